@@ -786,17 +786,17 @@ func checkC19(c c19Case) obs.Result {
 		if perr != nil {
 			return obs.Violationf("dateTimeToEpoch(%q) = %q: not an integer", in, ep)
 		}
-		matched := int64(-1)
+		matched, found := int64(0), false
 		for _, a := range okSecs {
 			want := a
 			if cc.Unit == "MILLISECOND" {
 				want = a*1000 + ms
 			}
 			if got == want {
-				matched = a
+				matched, found = a, true
 			}
 		}
-		if matched == -1 {
+		if !found {
 			return obs.Violationf("dateTimeToEpoch(%q, fromTZ=%q, %s) = %s; want unix seconds in %v (ms part %d)", in, cc.FromTZ, cc.Unit, ep, okSecs, ms)
 		}
 		if c.Func == 4 {
